@@ -744,6 +744,8 @@ impl LevelFilter {
             None => Self::OFF_USIZE,
         };
 
+        #[cfg(feature = "verif-hooks")]
+        crate::verif::point(crate::verif::site::SET_MAX_BEFORE);
         // using an AcqRel swap ensures an ordered relationship of writes to the
         // max level.
         MAX_LEVEL.swap(val, Ordering::AcqRel);
